@@ -207,7 +207,7 @@ Section NodeProofs.
 
   Theorem step_wf s e s' o : step s e = (s', o) -> wf_step s s' o.
   Proof.
-    destruct e as [d|d| |rho sync|rho sync|r p sg| |sync|target g]; simpl; intros H.
+    destruct e as [d|d| |rho sync|rho sync|r p sg| |sync|target g|upto bs]; simpl; intros H.
     - apply fire_due_wf in H. eapply wf_chain_eq; [|exact H]. reflexivity.
     - inversion H; subst. apply wf_refl; reflexivity.
     - apply fire_due_wf; exact H.
@@ -238,6 +238,8 @@ Section NodeProofs.
     - inversion H; subst. apply wf_refl; reflexivity.
     - apply do_sync_wf in H. eapply wf_chain_eq; [|exact H]. reflexivity.
     - inversion H; subst. apply wf_refl; reflexivity.
+    - destruct (s_running s); simpl in H; [|inversion H; subst; apply wf_refl; reflexivity].
+      apply try_node_wf in H. exact H.
   Qed.
 
   (* ---------- lifted to every event list ---------- *)
@@ -509,7 +511,7 @@ Section NodeTime.
   Theorem step_emits_timely s e s' o : step s e = (s', o) -> emits_timely o.
   Proof.
     intros H.
-    destruct e as [d|d| |rho sync|rho sync|r p sg| |sync|target g]; simpl in H.
+    destruct e as [d|d| |rho sync|rho sync|r p sg| |sync|target g|upto bs]; simpl in H.
     - eapply fire_due_timely; exact H.
     - inversion H; subst. intros ? ? ? ? [].
     - eapply fire_due_timely; exact H.
@@ -549,6 +551,8 @@ Section NodeTime.
     - inversion H; subst. intros ? ? ? ? [].
     - apply do_sync_fields in H as [_ [_ [_ G4]]]. apply no_emit_timely; exact G4.
     - inversion H; subst. intros ? ? ? ? [].
+    - destruct (s_running s); cbn [negb] in H; [|inversion H; subst; intros ? ? ? ? []].
+      apply try_node_fields in H as [_ [_ [_ G4]]]. apply no_emit_timely; exact G4.
   Qed.
 
   Theorem run_emits_timely es : forall s s' os,
@@ -789,7 +793,7 @@ Section NodeSwitch.
     step s e = (s', o) -> tracks s s' o.
   Proof.
     intros Ht Hr H.
-    destruct e as [d|d| |rho sync|rho sync|r p sg| |sync|target g]; simpl in H.
+    destruct e as [d|d| |rho sync|rho sync|r p sg| |sync|target g|upto bs]; simpl in H.
     - apply fire_due_tracks in H. eapply tracks_gp_eq; [|exact H]. reflexivity.
     - inversion H; subst. apply tracks_nop; reflexivity.
     - apply fire_due_tracks; exact H.
@@ -817,5 +821,7 @@ Section NodeSwitch.
     - inversion H; subst. apply tracks_nop; reflexivity.
     - exfalso; eapply Hr; reflexivity.
     - exfalso; eapply Ht; reflexivity.
+    - destruct (s_running s); cbn [negb] in H; [|inversion H; subst; apply tracks_nop; reflexivity].
+      apply try_node_tracks in H. exact H.
   Qed.
 End NodeSwitch.
